@@ -58,6 +58,7 @@ type Contract struct {
 	Terminates bool
 	lockMode bool
 	Splits   []SplitSpec
+	AtReturn []Clause // assertions checked at every return site (locals in scope; unassigned locals read as zero)
 }
 
 type SplitSpec struct {
@@ -143,6 +144,7 @@ func parseContractFile(path, pkgPath string) (*ContractFile, error) {
 	var cur *Contract
 	var curLoop *LoopSpec
 	var curAt *AtCall
+	var retAt *AtCall
 	var curGlobal *GlobalInv
 	mk := func(l rawLine, allowLabel bool) (Clause, error) {
 		src := l.rest
@@ -165,7 +167,7 @@ func parseContractFile(path, pkgPath string) (*ContractFile, error) {
 		case "func", "iface":
 			cur = &Contract{PkgPath: pkgPath, FnName: l.rest, Loops: map[int]*LoopSpec{}, Where: where, Iface: l.kw == "iface"}
 			cf.Contracts = append(cf.Contracts, cur)
-			curLoop, curAt, curGlobal = nil, nil, nil
+			curLoop, curAt, curGlobal, retAt = nil, nil, nil, nil
 		case "pred":
 			// pred name(a, b) = expr
 			i := strings.Index(l.rest, "=")
@@ -303,6 +305,12 @@ func parseContractFile(path, pkgPath string) (*ContractFile, error) {
 				}
 				curLoop.Unroll = n
 			case "at":
+				if strings.HasPrefix(strings.TrimSpace(l.rest), "return") {
+					curAt = &AtCall{Callee: "\x00return"}
+					curLoop = nil
+					retAt = curAt
+					break
+				}
 				// at call <callee>#n
 				r := strings.TrimSpace(strings.TrimPrefix(l.rest, "call"))
 				ord := 0
@@ -321,7 +329,11 @@ func parseContractFile(path, pkgPath string) (*ContractFile, error) {
 				if err != nil {
 					return nil, err
 				}
-				curAt.Asserts = append(curAt.Asserts, c)
+				if curAt == retAt && retAt != nil {
+					cur.AtReturn = append(cur.AtReturn, c)
+				} else {
+					curAt.Asserts = append(curAt.Asserts, c)
+				}
 			case "trusted":
 				cur.Trusted = true
 			case "inline":
